@@ -209,7 +209,7 @@ class IntPOD(BasePOD[int]):
                 f"{self._qualname} only accepts int,"
                 f" not {type(value).__name__}"
             )
-        return str(value)
+        return str(int(value))
 
 
 class FloatPOD(BasePOD[float]):
